@@ -18,6 +18,9 @@ import (
 // Host is the server name harness clients are configured with when they talk to a "remote" server.
 const Host = "mail.example.test"
 
+// LookalikeHosts are remote host names that resemble a loopback name; the good certificate is valid for them.
+var LookalikeHosts = []string{"localhost.example.test", "127.0.0.1.example.test", "localhostx.test", "xlocalhost.test", "localhost.localdomain.example.test"}
+
 // TLSMat is the certificate material of one harness process.
 type TLSMat struct {
 	Pool      *x509.CertPool // trusts CA
@@ -82,12 +85,12 @@ func Mat() *TLSMat {
 			c, der := mkCert(tmpl, parent, &k.PublicKey, pk)
 			return tls.Certificate{Certificate: [][]byte{der}, PrivateKey: k, Leaf: c}
 		}
-		m.Good = leaf(leafTmpl(Host, 2, []string{Host, "localhost"}, []net.IP{net.ParseIP("127.0.0.1"), net.ParseIP("::1")}), ca, caKey)
+		m.Good = leaf(leafTmpl(Host, 2, append([]string{Host, "localhost"}, LookalikeHosts...), []net.IP{net.ParseIP("127.0.0.1"), net.ParseIP("::1")}), ca, caKey)
 		m.WrongName = leaf(leafTmpl("other.example.test", 3, []string{"other.example.test"}, nil), ca, caKey)
 		evilKey, _ := ecdsa.GenerateKey(elliptic.P256(), rand.Reader)
 		et := caTmpl("evil CA", 4)
 		evil, _ := mkCert(et, et, &evilKey.PublicKey, evilKey)
-		m.Untrusted = leaf(leafTmpl(Host, 5, []string{Host, "localhost"}, []net.IP{net.ParseIP("127.0.0.1")}), evil, evilKey)
+		m.Untrusted = leaf(leafTmpl(Host, 5, append([]string{Host, "localhost"}, LookalikeHosts...), []net.IP{net.ParseIP("127.0.0.1")}), evil, evilKey)
 
 		interKey, _ := ecdsa.GenerateKey(elliptic.P256(), rand.Reader)
 		inter, _ := mkCert(caTmpl("verif intermediate CA", 6), ca, &interKey.PublicKey, caKey)
